@@ -225,6 +225,15 @@ class CoxeterGroup:
             with_inverse=True
         )
 
+        # a degenerate form has no diagonalizing change of basis: diagonalize_form
+        # then returns a singular W, and Winv is not its inverse
+        if not np.allclose((Winv @ W).astype('float64'), np.identity(num_gens),
+                           rtol=0, atol=1e-10):
+            raise GeometryError(
+                "cannot diagonalize: the bilinear form determined by the"
+                " Cartan matrix is degenerate"
+            )
+
         W = utils.change_base_ring(W, base_ring)
         Winv = utils.change_base_ring(Winv, base_ring)
 
